@@ -284,13 +284,39 @@ class Gen:
                 self.expr(depth - 1)
                 self.blank(0.05)
             self.emit(tok("close", ")"))
-        elif u < 0.95:
+        elif u < 0.93:
             self.term(depth - 1)
             self.emit(tok("post", "%"))
-        else:                                          # intersection of two references
-            self.emit(self.reference())
+        else:
+            # intersection: a blank between two operands.  Left operand: reference, function call, parenthesised
+            # range or name; right operand: reference, function call or parenthesised range.
+            self.isect_operand(depth, r.choice(["ref", "ref", "fn", "paren", "name"]))
             self.emit(isect(r.choice([1, 1, 2])))
-            self.emit(self.reference() if not self.apos else ref([], False, self.geometry(cell_only=True)))
+            self.isect_operand(depth, r.choice(["ref", "ref", "fn", "paren"]))
+
+    def isect_operand(self, depth, shape):
+        r = self.rng
+        if shape == "name":
+            self.emit(nametok(r.choice(NAMES_LOWER + NAMES_CAP)))
+        elif shape == "fn":
+            self.emit(tok("fn", r.choice(["INDEX", "OFFSET", "SUM", "IF"])))
+            for i in range(r.choice([1, 2, 3])):
+                if i:
+                    self.emit(tok("sep", ","))
+                if i == 0:
+                    self.emit(self.reference())
+                else:
+                    self.expr(min(depth - 1, 1))
+            self.emit(tok("close", ")"))
+        elif shape == "paren":
+            self.emit(tok("open", "("))
+            self.emit(self.reference())
+            if r.random() < 0.3:
+                self.emit(tok("sep", ","))
+                self.emit(self.reference())
+            self.emit(tok("close", ")"))
+        else:
+            self.emit(self.reference())
 
     def term(self, depth):
         """an operand that can take a prefix / postfix operator"""
